@@ -183,6 +183,9 @@ def run(tier):
     _solver_exits(chk)
     _triangular_linear(chk)
     _modes_at_extremes(chk)
+    # the public facade binds every argument to the service parameter it is meant for (nominal swap rule, rules/common.py)
+    from . import common as _common
+    _common.facade_bindings(chk, "C04.f-facade", ['hiten.system.libration'], floor=6)
     return chk
 
 
